@@ -6,12 +6,16 @@
     Sites (anchors in the working tree; the list is re-scanned on every run, corpus/C15-sites.txt):
       crates/moonbit/src/lib.rs  write_moon_pkg   `imports.packages.iter().map(fmt).collect(); deps.sort(); join(",\n")`
       crates/moonbit/src/lib.rs  write_moon_pkg   `self.export.iter().map(fmt).collect(); push(realloc); exports.sort(); join`
+                                                  ([export] was a HashMap until /repo 8cfe635; the sort is still there)
       crates/core/src/types.rs   collect_equal_types   `for (&id,&info) in &self.type_info { merged[find(id)] |= info }`,
                                                        `for (&id,info) in &mut self.type_info { *info = merged[find(id)] }`
       crates/core/src/source.rs  Files (BTreeMap)      pushes with distinct names come out in name order
-      crates/moonbit/src/lib.rs  finish_imports / export_interface / export_funcs  `for b in builtins.iter() { uwriteln!(ffi, b) }`
-      crates/moonbit/src/lib.rs  finish           `for (_, (_, impl_)) in self.export.iter() { uwriteln!(body, impl_) }`
-    The last two have NO ordering step: [render_lines] and the [_refuted] theorem. *)
+      crates/csharp/src/world_generator.rs finish      `self.bidirectional_types_src.iter().cloned().collect::<Vec<_>>().join("\n")`
+      crates/csharp/src/world_generator.rs import_interface / export_interface
+                                                       `by_resource(funcs, new_resources.keys())` appends to an IndexMap, emitted in that order
+    The two C# sites have NO ordering step: [render_lines] and the [_refuted] theorem.  (The MoonBit loops
+    `for b in builtins.iter() { uwriteln!(ffi, b) }` and `for (_, (_, impl_)) in self.export.iter()` were of the same kind;
+    this check exhibited them and they were repaired in /repo by 6c38ab3 and 8cfe635.) *)
 From Coq Require Import List String Ascii NArith Bool.
 Import ListNotations.
 Local Open Scope string_scope.
@@ -94,5 +98,5 @@ Definition pair_leb (a b : string * string) : bool :=
 
 Definition files_iter (pushes : list (string * string)) : list (string * string) := isort pair_leb pushes.
 
-(** * A hash collection written out with no ordering step (MoonBit builtins, MoonBit export impls) *)
+(** * A hash collection written out with no ordering step (C# world-level enums, C# function-less resources) *)
 Definition render_lines (es : list string) : string := concat "" (map (fun s => s ++ nl) es).
